@@ -4,6 +4,7 @@ import ast
 from sa.index import AnalysisError
 from sa import dispatch as D, model as M, opsum as O
 from sa.rules import exh, opref, ordkernel, densesum, units, pure, ownrule
+from sa.rules import stackstep as SS
 
 OFF_KERNEL = 'rtamt.semantics.stl.dense_time.offline.intersection'
 UNDECIDED = ('TimedOnce', 'TimedHistorically', 'TimedSince', 'TimedAlways', 'TimedEventually', 'TimedUntil')
@@ -24,6 +25,7 @@ def check(ix, rep):
     # 3. operator tables
     d = D.dispatch_of(ix, mon.cls)
     decided = 0
+    nfw = 0
     for nc in D.node_classes(ix):
         meth, _ = d.method_for(nc, ix)
         if not meth:
@@ -44,7 +46,8 @@ def check(ix, rep):
             nf, partial, trail = densesum.summarize_offline_handler(ix, f)
             want = opref.DENSE.get(nc.name)
         if nc.name in UNDECIDED:
-            rep.undecided('R-OPSUM', f.module.rel, f.qual, slot, 'sliding-window interval algorithm is not summarised', f.node.lineno)
+            SS.check_forward(ix, rep, mon.cls, f, nc.name)
+            nfw += 1
             continue
         if want is None:
             continue
@@ -60,6 +63,27 @@ def check(ix, rep):
         if partial and nc.name not in opref.PARTIAL:
             rep.fail('R-PARTIAL', f.module.rel, f.qual, slot, 'total operator raises under `%s`' % partial, f.node.lineno)
     rep.floor('dense offline operators summarised', decided, 22)
+    rep.floor('bounded handlers whose forwarding to the kernel was checked', nfw, 6)
+    # 3b. the sliding-window kernels
+    m = ix.module('rtamt.semantics.stl.dense_time.offline.ast_visitor')
+    nst = 0
+    for opn in ('once', 'historically', 'always', 'eventually'):
+        kf = m.functions.get(opn + '_timed_operation')
+        if kf is None:
+            rep.error('kernel %s_timed_operation vanished' % opn)
+            continue
+        rep.analysed(kf)
+        nst += SS.check_function(ix, rep, kf, opn, slot_prefix='dense-offline:')
+        SS.check_build(ix, rep, kf, opn, slot_prefix='dense-offline:')
+        SS.check_output(ix, rep, kf, opn, slot_prefix='dense-offline:')
+    rep.floor('abstract states of the sliding-window merge step', nst, 72)
+    for which in ('since', 'until'):
+        kf = m.functions.get(which + '_timed_operation')
+        if kf is None:
+            rep.error('kernel %s_timed_operation vanished' % which)
+            continue
+        rep.analysed(kf)
+        SS.check_compose(ix, rep, kf, which)
     # 4. bound conversion and side conditions
     units.check_transformer(ix, rep, 'rtamt.semantics.dense_time_interpreter', 'DenseTimeInterpreter', 'dense')
     pure.pure_handlers(ix, rep, mon)
@@ -72,10 +96,14 @@ def check(ix, rep):
         'of the slot function handed to the kernel (with operand order checked through handler and helper), the per-sample value expression of '
         'unary loops, the comparison table over the difference signal, the scan (direction, init, step) of once/historically/eventually/always/'
         'since/until -- and compared with the dense reference table (non-strict since/until). (3) R-EXH with the dense reject list; R-DIM for '
-        'the bound conversion; R-PURE/R-OWN. NOT decided: the sliding-window interval algorithms of the six bounded operators, output '
-        'compression, start of the domain -- a mutation there is invisible to this check.')
+        'the bound conversion; R-PURE/R-OWN. (4) the six bounded operators: R-FORWARD (handler hands operands in order and the converted '
+        'bounds to its own kernel), R-SEGSTEP (the merge step of the segment stack evaluated on every ordering of segment ends and values '
+        'consistent with the stack invariant: pop soundness, contiguity, pointwise value, monotonicity), R-SEGBUILD (influence interval of '
+        'sample k in affine normal form, every sample visited once, filler segment for begin > 0), R-SEGOUT (segments to samples: every '
+        'value change emitted at the segment start, future operators clipped at time 0), R-COMPOSE (since[a,b]/until[a,b] from the unary '
+        'kernels). NOT decided: that the stack invariant is the right one is a hand lemma (DESIGN.md); end of the output domain.')
     assumptions = ['hand lemma: the merge invariant (prefix of both lists consumed up to the current segment) given the per-ordering contract',
-                   'the bounded operators\' window algorithms are outside the claim']
+                   'hand lemma: the stack invariant I of R-SEGSTEP is inductive given strictly increasing input time-stamps and 0 <= begin <= end']
     return explanation, assumptions, 'one instance per ordering, per dispatch cell, per summarised operator', {'exhaustive': True}
 
 
